@@ -131,7 +131,11 @@ def make_case(rng):
         what = rng.choice(["boundary", "axis", "policy", "mode"])
         allowed = {"boundary": ["reflecting", "periodical"], "axis": ["x", "y", "z"], "policy": ["on_t_sample", "on_iteration", "on_interval", "no_sampling"],
                    "mode": ["auto", "none", "Poisson", "redist"]}[what]
-        val = rng.choice(["periodic", "Reflecting", "w", "X", "on_sample", "never", "floor", "poisson", "", "None"]) if faulty else rng.choice(allowed)
+        wrong = {"boundary": ["periodic", "Reflecting", "", "None", "reflecting ", "periodical,reflecting", "reflect"],
+                 "axis": ["w", "X", "", "xy", "yz", "xyz", "xz", "x ", "0", "xx"],
+                 "policy": ["on_sample", "never", "", "None", "on_t_sample ", "on_iteration,on_interval", "on", "sampling"],
+                 "mode": ["floor", "poisson", "", "None", "Auto", "redist ", "no", "non"]}[what]
+        val = rng.choice(wrong) if faulty else rng.choice(allowed)
         case.update({"what": what, "allowed": allowed, "value": val})
     elif cls == "env_names":
         names = rng.choice([[], ["default"], ["a", "default"], ["default", "b"]]) if faulty else rng.choice([["a"], ["", "b"], ["x", "y", "z"], ["Default"]])
